@@ -525,6 +525,19 @@ func c10Types(c *Ctx) {
 			// must be the Conv2String result, recorded as String
 			isConv := strings.Contains(path(mu.Value), "Conv2String(")
 			r.Ob("TYPES", "Point.Set stores lists and maps as their JSON text", t.Pos(mu.Pos()), isConv, "value stored is "+path(mu.Value))
+			// … and records the type String for it in the same step
+			strC, _ := constInt(astp.Const("String").Value)
+			rec := false
+			for _, i2 := range mu.Block().Instrs {
+				if st, ok := i2.(*ssa.Store); ok {
+					if fa, ok := st.Addr.(*ssa.FieldAddr); ok && namedOf(fa.X.Type()) == "input.TFMeta" && fieldName(fa) == "DType" {
+						if k, isC := constInt(st.Val); isC && k == strC {
+							rec = true
+						}
+					}
+				}
+			}
+			r.Ob("TYPES", "Point.Set indexes the JSON text of a list or map as String", t.Pos(mu.Pos()), rec, "m.DType = ast.String next to Fields[key] = <JSON text>: the index must say what the output holds, whatever type the key had before")
 		}
 	})
 	r.Floor("TYPES", 3)
